@@ -274,6 +274,8 @@ theorem inv_next (s : Sys) (e : Ev) (inv : Inv s) (hc : clean e = true) : Inv (n
     by_cases h : (s.ws w).parked = true ∧ (s.ws w).token = true
     · rw [if_pos h]; exact inv_ws s _ inv
     · rw [if_neg h]; exact inv
+  | parkErr w => exact inv_ws s _ inv
+  | gate w => exact inv_ws s _ inv
 
 def init (m : Nat) : Sys := { m := m }
 
@@ -525,8 +527,20 @@ private theorem winv_none (s : Sys) (i : Nat) (inv : WInv s) :
 /-- WAITERS: the invariant holds initially and is preserved by EVERY event (clean or not): each
 event that frees a key leaves a token for the waiters blocked on it, and since the gate channel
 has capacity 1 a token that is already pending is enough -/
-theorem waiter_not_lost (s : Sys) (e : Ev) (inv : WInv s) : WInv (next s e) := by
+theorem waiter_not_lost (s : Sys) (e : Ev) (inv : WInv s) (hf : faultPark e = false) : WInv (next s e) := by
   cases e with
+  | parkErr w => simp [faultPark] at hf
+  | gate w =>
+    intro x hp ht
+    by_cases hx : x = w
+    · subst hx
+      have ht' : (upd s.ws x { s.ws x with token := true } x).token = false := ht
+      simp [upd] at ht'
+    · have e : (upd s.ws w { s.ws w with token := true }) x = s.ws x := by simp [upd, hx]
+      show s.regs ((upd s.ws w { s.ws w with token := true } x).blocked) ≠ none
+      have hp' : (upd s.ws w { s.ws w with token := true } x).parked = true := hp
+      have ht' : (upd s.ws w { s.ws w with token := true } x).token = false := ht
+      rw [e] at hp' ht' ⊢; exact inv x hp' ht'
   | acq v i =>
     simp only [next]
     by_cases hpre : (s.hs v).mons i = .idle ∧ i < s.n
@@ -606,12 +620,28 @@ theorem waiter_not_lost (s : Sys) (e : Ev) (inv : WInv s) : WInv (next s e) := b
         rw [e] at hp' ht' ⊢; exact inv x hp' ht'
     · rw [if_neg h]; exact inv
 
-theorem waiter_not_lost_run (m : Nat) (es : List Ev) : WInv (run (init m) es) := by
+theorem waiter_not_lost_run (m : Nat) (es : List Ev) (hf : ∀ e ∈ es, faultPark e = false) :
+    WInv (run (init m) es) := by
   have h0 : WInv (init m) := by intro w hp; simp [init] at hp
   generalize init m = s at h0
   induction es generalizing s with
   | nil => exact h0
-  | cons e r ih => exact ih _ (waiter_not_lost s e h0)
+  | cons e r ih =>
+    exact ih (fun e' he' => hf e' (List.mem_cons_of_mem _ he')) (next s e)
+      (waiter_not_lost s e h0 (hf e (List.mem_cons_self ..)))
+
+/-- OBSERVATION (not a missed wake-up): a waiter whose attempt ends with a server error instead
+of a refusal — here KeyMajority 1, the acquire script of its only key fails — goes back to the
+gate having read no key: the lock is free, it is parked, no token is pending and nothing it
+tracks will ever be written. The wake-up it had received was consumed by the failed attempt; the
+next one comes only with the next invalidation or gate send. `waiter_not_lost` excludes exactly
+this event (`faultPark`). -/
+theorem waiter_parked_after_failed_attempt_witness :
+    let s := run (init 1) [.acqErr 5 0, .parkErr 0]
+    s.regs 0 = none ∧ (s.ws 0).parked = true ∧ (s.ws 0).token = false ∧ ¬ WInv s := by
+  refine ⟨by decide, by decide, by decide, ?_⟩
+  intro h
+  exact h 0 (by decide) (by decide) (by decide)
 
 /-! ### 6b. key names round-trip for ALL names -/
 open Rv.Lock.KeyName in
